@@ -1,5 +1,6 @@
 -------------------------- MODULE MC_TraceStandardize --------------------------
 EXTENDS TraceStandardize
 PathsT == {[name |-> "a", kind |-> "npy"], [name |-> "b", kind |-> "npz"], [name |-> "c", kind |-> "raw"], [name |-> "d", kind |-> "npz"],
-           [name |-> "e", kind |-> "raw"], [name |-> "f", kind |-> "raw"]}
+           [name |-> "e", kind |-> "raw"], [name |-> "f", kind |-> "raw"],
+           [name |-> "g", kind |-> "npy"], [name |-> "h", kind |-> "npz"]}
 ===============================================================================
